@@ -81,6 +81,11 @@ Macros(T) ==
         { << [m |-> "edgeSend", p |-> p, k |-> 0, fate |-> f], [m |-> "edgeSend", p |-> p, k |-> 1, fate |-> "ok"] >>,
           << [m |-> "edgeRecv", p |-> p, k |-> 0, fate |-> "ok"], [m |-> "edgeRecv", p |-> p, k |-> 1, fate |-> "ok"] >>,
           << [m |-> "edgeSend", p |-> p, k |-> 1, fate |-> "ok"], Rcv(p, PickOne(AMTS), "ok"), [m |-> "edgeSend", p |-> p, k |-> 0, fate |-> f] >>,
+        \* refund inside the window, directly after the transfer (send side and asynchronously acknowledged receive)
+          << Snd(p, PickOne(AMTS), f), [m |-> "finishNewest", p |-> p, dt |-> 1] >>,
+          << Rcv(p, PickOne(AMTS), PickOne({"ferr", "fto"})), [m |-> "finishNewest", p |-> p, dt |-> 1], Rcv(p, PickOne(AMTS), "ok") >>,
+          << Rcv(p, PickOne(AMTS), "fok"), Rcv(p, PickOne(AMTS), PickOne({"ferr", "fto"})), [m |-> "finishNewest", p |-> p, dt |-> 1],
+             [m |-> "finishNewest", p |-> p, dt |-> 1] >>,
         \* epoch boundary: a refund exactly at the end of the hour (inside the window) / one tick later (outside)
           << Snd(p, PickOne(AMTS), "to"), [m |-> "finishAtEpochEnd", p |-> p, k |-> 0] >>,
           << Snd(p, PickOne(AMTS), "err"), [m |-> "toEpochEnd", k |-> 0], [m |-> "finishNewest", p |-> p, dt |-> 1] >>,
@@ -112,13 +117,14 @@ Class(T, cls) ==
       [] cls = "Relay"  -> RelayActs(T)
       [] cls = "Admin"  -> AdminActs(T)
       [] cls = "BadAdmin" -> BadAdminActs(T)
+      [] cls = "XImport" -> { [a |-> "XImport", dt |-> 1] }
       [] cls = "EdgeSend" -> UNION { With(With(With(With(Base("Send"), "d", {PathD(p)}), "ch", {PathCh(p)}), "amt", EdgeAmts(T, p, "out")), "fate", FATES_OUT)
                                      : p \in { q \in Paths : PathCh(q) \in SEND_CH } }
       [] cls = "EdgeRecv" -> UNION { With(With(With(With(Base("Recv"), "d", {PathD(p)}), "ch", {"AB"}), "amt", EdgeAmts(T, p, "in")), "fate", FATES_IN)
                                      : p \in {"N/AB", "V/AB"} }
 
 Weights == <<"Block", "Send", "Send", "Send", "Send", "Recv", "Recv", "Recv", "Recv", "Relay", "Relay", "Relay", "Relay", "Relay",
-             "Admin", "Admin", "BadAdmin", "EdgeSend", "EdgeSend", "EdgeRecv">>
+             "Admin", "Admin", "BadAdmin", "EdgeSend", "EdgeSend", "EdgeRecv", "XImport">>
 
 Pick(T) ==
     CHOOSE x \in UNION { UNION {
